@@ -26,6 +26,7 @@ import (
 	"go/token"
 	"os"
 	"path/filepath"
+	"regexp"
 	"strings"
 )
 
@@ -40,6 +41,8 @@ type it struct {
 	loopVar map[string]bool // index variables of the 3-clause loops (may not be used otherwise)
 }
 
+var reservedTmp = regexp.MustCompile(`^[rcp][0-9]+$|_Elem$`)
+
 func (t *it) line(ind int, s string) { t.out.WriteString(strings.Repeat("  ", ind) + s + "\n") }
 func (t *it) bad(n ast.Node, what string) {
 	fail("gencommoniface: %s: %s `%s` is outside the translated fragment", at(n), what, src(n))
@@ -50,6 +53,10 @@ func (t *it) pop()                  { t.env = t.env[:len(t.env)-1] }
 func (t *it) bind(n ast.Node, v, kind string) {
 	if _, ok := t.lookup(v); ok {
 		t.bad(n, "shadowing declaration")
+	}
+	// names the translation itself introduces
+	if v == "env" || v == "g" || v == "fuel" || v == "ih" || v == "opts" || reservedTmp.MatchString(v) {
+		t.bad(n, "declaration of a name the translation uses itself ("+v+") in")
 	}
 	t.env[len(t.env)-1][v] = kind
 }
